@@ -200,7 +200,7 @@ impl Property for C10 {
         vec!["documents are side-effect free (no var, random, ^), so sibling order is the only thing that changes between runs".into()]
     }
     fn families(&self, tier: Tier) -> Vec<Family<Case>> {
-        vec![Family::random("dag-permutations", tier.n(1500, 40_000), fam_dag), Family::random("negative", tier.n(400, 6000), fam_negative)]
+        vec![Family::random("dag-permutations", tier.n(6_000, 40_000), fam_dag), Family::random("negative", tier.n(1_600, 6000), fam_negative)]
     }
     fn judge(&self, case: &Case, _strict: bool) -> Verdict {
         let cfg = Cfg::plain();
